@@ -230,6 +230,15 @@ func NewParty(name string, kind KeyKind) *Party {
 
 // PublicKey encodes the party's key in the requested encoding.
 func (p *Party) PublicKey(enc protocol.KeyEncoding) protocol.PublicKey {
+	pk, err := p.PublicKeyErr(enc)
+	if err != nil {
+		panic(err)
+	}
+	return pk
+}
+
+// PublicKeyErr is PublicKey for encodings that come from a peer (an RSA key has no COSE encoding).
+func (p *Party) PublicKeyErr(enc protocol.KeyEncoding) (protocol.PublicKey, error) {
 	var pk *protocol.PublicKey
 	var err error
 	switch enc {
@@ -244,9 +253,9 @@ func (p *Party) PublicKey(enc protocol.KeyEncoding) protocol.PublicKey {
 		}
 	}
 	if err != nil {
-		panic(err)
+		return protocol.PublicKey{}, err
 	}
-	return *pk
+	return *pk, nil
 }
 
 // KeyStore implements fdo.OwnerKeyPersistentState (and the manufacturer key lookup) over one party
